@@ -108,7 +108,7 @@ def _replay_history(heapdict_mod, case):
 def record_trace(heapdict_mod, rng, tid):
   """Runs the real HeapDict on a random push/get sequence, logging a snapshot after every call."""
   Item = make_item_class()
-  cap = rng.choice([0, 1, 1, 2, 3, 5, 8])
+  cap = rng.choice([0, 1, 1, 2, 3, 5, 8, 2.0, 3.0])      # an integer-valued float is a capacity, too
   nkeys = rng.randint(1, 4)
   flavour = rng.choice(['str', 'int', 'float', 'mixed'])
   actual = []
@@ -140,7 +140,7 @@ def record_trace(heapdict_mod, rng, tid):
     events.append({'op': 'get', 'key': '', 'val': 0, 'tag': 0, 'after': snapshot()})
   except Exception as e:  # pylint: disable=broad-except
     crash = '%s: %s after %d events' % (type(e).__name__, e, len(events))
-  return {'id': tid, 'cap': cap, 'events': events, 'keytypes': flavour, 'crash': crash}
+  return {'id': tid, 'cap': int(cap), 'events': events, 'keytypes': flavour, 'crash': crash}
 
 
 def validate_traces(res, traces, label):
